@@ -59,7 +59,7 @@ class C02(Prop):
         R = Rng(seed, "C02")
         used = set()
         n = R.weighted([(1, 65), (2, 25), (3, 10)])
-        cfg = {"small": tier == "quick"}
+        cfg = {"small": tier == "quick", "zero_rtt_any_suite_pct": 25}
         if idx % 2:
             cfg["net"] = NET
         policy = R.choice(["concurrent", "staggered", "sequential"])
